@@ -40,8 +40,8 @@ ASSUME = [
     'math.exp for exp(b^2/2), a harness-side trapezoid sum (h = 1/32 on [-14,14]) for logistic-normal mixtures',
     'Derive: the engine\'s automatic differentiation is compared with the symbolic derivative D of Model/Deriv.v (correct by '
     'Proofs/DerivP.v D_correct, property C02) on the smooth fragment; derivatives with respect to a draw variable are not modelled',
-    'a draw variable declared twice with two different types is outside T10a (hypothesis types_consistent): see known finding '
-    'C10/mc/conflicting-types',
+    'a draw variable declared twice with two different types must be refused (IdManager._check_types_of_draws, repaired defect): '
+    'corpus/C10/mc_conflicting_types.json; the model refuses it too (T10a_conflicting_types_refused)',
     'panel data (one series per individual) is covered by C09; here every observation is an individual',
 ]
 TRUSTED = ['engine semantics modelled, not verified', 'expression bridge lib/impl/bio_bridge.py / bio_build.py (round trip checked on every case)',
@@ -250,6 +250,7 @@ def stream_mc(ctx, only=None):
         if 'build_exc' in r:
             if conflict:
                 st.record({'conflict': strip_sids(c['tree']), 'refused': True})
+                tcases.append(('refused', c, 'build', None))
                 continue
             ctx.violation('C10/mc/build', 'a well-formed formula could not be built', witness(c), 'an Expression', r['build_exc'], how)
             continue
@@ -266,6 +267,7 @@ def stream_mc(ctx, only=None):
             if 'exc' in o:
                 if conflict:
                     st.record({'conflict': plain, 'path': path, 'refused': o['exc'][:80]})
+                    tcases.append(('refused', c, path, None))
                     continue
                 # the model must say "outside the domain" for some observation
                 for i, row in enumerate(c['rows']):
@@ -311,8 +313,8 @@ def stream_mc(ctx, only=None):
         if v == 'differ':
             if conflict:
                 ctx.violation('C10/mc/conflicting-types',
-                              'a draw variable declared with two types is accepted and every occurrence reads the series of the last '
-                              'declared type (variable declared TA is fed series TB)', witness(c, path=path, observation=i),
+                              'a draw variable declared with two types is accepted (instead of refused) and an occurrence does not read the '
+                              'series of its declared type (variable declared TA is fed series TB)', witness(c, path=path, observation=i),
                               {'each occurrence reads the series of its declared type, or the formula is refused': info}, obs,
                               'lib/impl/c10_draws.py mode eval on witness.case')
                 continue
@@ -550,8 +552,17 @@ def stream_table(ctx, tcases, only=None):
                          f'{coq_list([coq_string(n) for n in c["names"]])} {c["N"]}%nat {c["R"]}%nat {obs})')
             icases.append((c, r))
     # ---- formula level (from stream mc)
-    for (_, c, path, o) in tcases:
+    for (kind_, c, path, o) in tcases:
         if any(g[1] not in GKIND for g in c['gens']):
+            continue
+        if kind_ == 'refused':
+            # a formula refused for conflicting draw types: the model must refuse it too
+            case = {'formula': strip_sids(c['tree']), 'gens': c['gens'], 'refused': path}
+            stt.record(case, nontrivial=True)
+            items.append(f'(match prepare_draws Z unit NAT {coq_gdict(c["gens"])} [{json_to_coq(strip_sids(c["tree"]))}] '
+                         f'{coq_list([coq_string(x) for x in c["rows"][0].keys()])} {len(c["rows"])}%nat {c["R"]}%nat tt '
+                         f'with None => true | Some _ => false end)')
+            icases.append((case, 'refused by the implementation'))
             continue
         tb = o.get('table')
         case = {'formula': strip_sids(c['tree']), 'gens': c['gens'], 'N': len(c['rows']), 'R': c['R'], 'path': path}
